@@ -8,7 +8,7 @@ import os
 SPEC = os.environ.get("SPEC") == "1"
 
 def compare(prog):
-    real = tplgen.run_real(prog, limit=3.0)
+    real = tplgen.run_real(prog, limit=20.0)
     if SPEC:
         sp = core.drive([dict(tplgen.for_model(prog), op="specrender", fuel=1500)])[0]
         rep = {"spec": sp}
